@@ -53,10 +53,12 @@ type seen struct {
 }
 
 type server struct {
-	tp     *Tape
-	log    []*seen
-	excess bool
-	warm   string // non-empty during an earlier call of a reused client: answer this kind for ever
+	tp      *Tape
+	log     []*seen
+	excess  bool
+	warm    string // non-empty during an earlier call of a reused client: answer this kind for ever
+	endless int    // responses sent with a body that never ends
+	drained string // kind of the first response whose endless body was read beyond 4 MiB
 }
 
 func (s *server) RoundTrip(req *http.Request) (*http.Response, error) {
@@ -143,9 +145,39 @@ func (s *server) RoundTrip(req *http.Request) (*http.Response, error) {
 	if req.Method == "HEAD" {
 		body = ""
 	}
+	if s.tp.RespBody == "endless" && req.Method != "HEAD" {
+		s.endless++
+		return &http.Response{StatusCode: code, Status: fmt.Sprintf("%d %s", code, http.StatusText(code)), Proto: "HTTP/1.1", ProtoMajor: 1, ProtoMinor: 1,
+			Header: h, Body: &endlessBody{s: s, kind: kind}, ContentLength: -1, TransferEncoding: []string{"chunked"}, Request: req}, nil
+	}
 	return &http.Response{StatusCode: code, Status: fmt.Sprintf("%d %s", code, http.StatusText(code)), Proto: "HTTP/1.1", ProtoMajor: 1, ProtoMinor: 1,
 		Header: h, Body: io.NopCloser(strings.NewReader(body)), ContentLength: int64(len(body)), Request: req}, nil
 }
+
+// endlessBody is a response body that never ends.  Whoever keeps reading it is stopped after
+// 4 MiB (net/http itself reads at most 2 KiB of a response it does not hand to the caller), and the
+// server remembers which response it was.
+type endlessBody struct {
+	s    *server
+	kind string
+	n    int64
+}
+
+func (b *endlessBody) Read(p []byte) (int, error) {
+	if b.n > 4<<20 {
+		if b.s.drained == "" {
+			b.s.drained = b.kind
+		}
+		return 0, io.ErrUnexpectedEOF
+	}
+	for i := range p {
+		p[i] = 'x'
+	}
+	b.n += int64(len(p))
+	return len(p), nil
+}
+
+func (b *endlessBody) Close() error { return nil }
 
 func codeOf(kind string) int {
 	var c int
@@ -533,6 +565,15 @@ func run(tapeJSON json.RawMessage, res *core.Result) {
 			d.Why = fmt.Sprintf("the call ended after %d redirect(s) of this call with: %v", redirects, opErr)
 			engine.Violate(res, "redirect-not-followed|reused-client", d)
 		}
+	}
+	// (3c) the body of a response the call does not hand back is the peer's: reading it to its end means
+	// never returning when it has none
+	if srv.endless > 0 {
+		res.Probes["response-bodies-that-never-end"]++
+	}
+	if srv.drained != "" {
+		d.Why = "more than 4 MiB of the body of a " + srv.drained + " response were read inside the call"
+		engine.Violate(res, "response-body-read-without-bound|"+srv.drained, d)
 	}
 	// (4) the value returned
 	if tp.API != "header" && panicMsg == "" {
